@@ -33,6 +33,12 @@ def make_scratch(repo):
 
 def apply_edits(d, edits):
     for ed in edits:
+        if "patch" in ed:
+            pf = os.path.join(VERIF, ed["patch"])
+            r = subprocess.run(["patch", "-p1", "-s", "-i", pf], cwd=d, capture_output=True, text=True)
+            if r.returncode != 0:
+                raise AnalysisError("selftest: patch %s does not apply: %s" % (ed["patch"], (r.stdout + r.stderr)[:300]))
+            continue
         p = os.path.join(d, ed["file"])
         with open(p) as f:
             t = f.read()
